@@ -475,9 +475,13 @@ func (g *Gen) fill(v reflect.Value, depth int) {
 		m := reflect.MakeMapWithSize(t, n)
 		for i := 0; i < n; i++ {
 			k := reflect.New(t.Key()).Elem()
-			sub := &Gen{R: g.R, Prof: ProfFull, cnt: g.cnt}
-			sub.fill(k, depth+1)
-			g.cnt = sub.cnt
+			if t.Key().Kind() == reflect.Ptr && i == 0 && g.Prof == ProfRandom && g.R.Chance(1, 5) {
+				// a nil pointer is a legitimate key ("every pointer nil or set"): at most one per map
+			} else {
+				sub := &Gen{R: g.R, Prof: ProfFull, cnt: g.cnt}
+				sub.fill(k, depth+1)
+				g.cnt = sub.cnt
+			}
 			e := reflect.New(t.Elem()).Elem()
 			g.fill(e, depth+1)
 			m.SetMapIndex(k, e)
